@@ -170,7 +170,11 @@ class ObjectTemplate:
     ) -> Optional[ObjectRow]:
         """Generate several rows"""
         rc = None
-        with parent_context.child_context(self) as context:
+        # the outer handler covers what happens before the loop: creating the context
+        # (e.g. the Faker locale) and evaluating the count
+        with self.exception_handling(
+            f"Cannot generate {self.name}"
+        ), parent_context.child_context(self) as context:
             if self.for_each_expr:
                 # it would be easy to support multiple parallel
                 # for-eaches here and at one point the code did,
@@ -213,9 +217,11 @@ class ObjectTemplate:
         else:
             try:
                 return int(float(cast(str, self.count_expr.render(context))))
-            except (ValueError, TypeError) as e:
+            except (ValueError, TypeError, OverflowError) as e:
+                # only SimpleValues have a definition
+                definition = getattr(self.count_expr, "definition", self.count_expr)
                 raise DataGenValueError(
-                    f"Cannot evaluate {self.count_expr.definition} as number",
+                    f"Cannot evaluate {definition} as number",
                     self.count_expr.filename,
                     self.count_expr.line_num,
                 ) from e
